@@ -166,24 +166,24 @@ type TokenRec struct {
 }
 
 type WW struct {
-	ID      int
-	Dir     string
-	Net     *lnmodel.Network
-	Mints   map[string]*MintSite
-	Wallets map[string]*WalletSite
-	Tokens  map[string]*TokenRec
-	nTok    int
+	ID       int
+	Dir      string
+	Net      *lnmodel.Network
+	Mints    map[string]*MintSite
+	Wallets  map[string]*WalletSite
+	Tokens   map[string]*TokenRec
+	nTok     int
 	DleqLog  []map[string]any // NUT-12 facts of tokens handed out and proofs stored (C10)
 	dleqSeen map[string]bool
-	Sched   Sched
-	crashed chan struct{} // closed when the running operation's wallet process has been killed
-	mu      sync.Mutex
-	Reqs    []ReqRec
-	seq     int
-	Events  []Event
-	nEv     int
-	secIDs  map[string]string
-	nSec    int
+	Sched    Sched
+	crashed  chan struct{} // closed when the running operation's wallet process has been killed
+	mu       sync.Mutex
+	Reqs     []ReqRec
+	seq      int
+	Events   []Event
+	nEv      int
+	secIDs   map[string]string
+	nSec     int
 	// knowledge for the privacy scan
 	knownR     map[string]string  // r hex -> description
 	byB        map[string]derived // B_ -> derivation
@@ -453,7 +453,38 @@ func (ww *WW) scanNew() []any {
 			}
 		}
 		signed := r.Status == 200 && (ep == "swap" || ep == "mint/bolt11")
+		// what a swap burns: inputs minus outputs, next to the fee the mint charges for those inputs (from its keysets)
+		insum, outsum, fee := 0, 0, 0
+		if r.Method == "POST" && ep == "swap" {
+			var body struct {
+				Inputs []struct {
+					Amount uint64 `json:"amount"`
+					Id     string `json:"id"`
+				} `json:"inputs"`
+				Outputs []struct {
+					Amount uint64 `json:"amount"`
+				} `json:"outputs"`
+			}
+			if json.Unmarshal([]byte(r.Body), &body) == nil {
+				ppk := uint(0)
+				for _, in := range body.Inputs {
+					insum += int(in.Amount)
+					for _, ms := range ww.Mints {
+						for _, k := range ms.W.Reg.Keysets {
+							if k.Real == in.Id {
+								ppk += k.Fee
+							}
+						}
+					}
+				}
+				for _, o := range body.Outputs {
+					outsum += int(o.Amount)
+				}
+				fee = int((ppk + 999) / 1000)
+			}
+		}
 		out = append(out, map[string]any{"method": r.Method, "path": ep, "status": r.Status, "panic": r.Panic != "", "outs": outs, "signed": signed,
+			"insum": insum, "outsum": outsum, "fee": fee,
 			"leaked_r": len(leakedR), "r_field": hasRField, "leaked_secret": len(leakedSecret), "bodylen": len(r.Body),
 			"detail": strings.Join(uniq(leakedR, 3), "; ")})
 	}
